@@ -1,6 +1,35 @@
 use crate::models::TypeStructure;
 use std::collections::{HashMap, HashSet};
 
+/// Byte offset of the first comma in `s` that is not nested inside `<>`, `()` or `[]`.
+///
+/// Shared by the type resolver and the type-name harvester so that both split a type
+/// string such as `Result<HashMap<K, V>, E>` or `(A, HashMap<K, V>)` at the same places.
+pub(crate) fn find_top_level_comma(s: &str) -> Option<usize> {
+    let mut depth = 0i32;
+    for (i, ch) in s.char_indices() {
+        match ch {
+            '<' | '(' | '[' => depth += 1,
+            '>' | ')' | ']' => depth -= 1,
+            ',' if depth == 0 => return Some(i),
+            _ => {}
+        }
+    }
+    None
+}
+
+/// Split `s` at every comma that is not nested inside `<>`, `()` or `[]`.
+pub(crate) fn split_top_level(s: &str) -> Vec<&str> {
+    let mut parts = Vec::new();
+    let mut rest = s;
+    while let Some(pos) = find_top_level_comma(rest) {
+        parts.push(&rest[..pos]);
+        rest = &rest[pos + 1..];
+    }
+    parts.push(rest);
+    parts
+}
+
 /// Type resolver for mapping Rust types to TypeScript types
 #[derive(Debug)]
 pub struct TypeResolver {
@@ -59,11 +88,9 @@ impl TypeResolver {
     fn extract_result_ok_type(&self, rust_type: &str) -> Option<String> {
         if rust_type.starts_with("Result<") && rust_type.ends_with('>') {
             let inner = &rust_type[7..rust_type.len() - 1];
-            if let Some(comma_pos) = inner.find(',') {
-                let ok_type = inner[..comma_pos].trim();
-                Some(ok_type.to_string())
-            } else {
-                Some(inner.to_string())
+            match find_top_level_comma(inner) {
+                Some(comma_pos) => Some(inner[..comma_pos].trim().to_string()),
+                None => Some(inner.to_string()),
             }
         } else {
             None
@@ -127,7 +154,10 @@ impl TypeResolver {
             if inner.trim().is_empty() {
                 return Some(vec![]);
             }
-            let types: Vec<String> = inner.split(',').map(|s| s.trim().to_string()).collect();
+            let types: Vec<String> = split_top_level(inner)
+                .into_iter()
+                .map(|s| s.trim().to_string())
+                .collect();
             Some(types)
         } else {
             None
@@ -143,28 +173,10 @@ impl TypeResolver {
 
     /// Parse two type parameters separated by comma (for HashMap, BTreeMap)
     fn parse_two_type_params(&self, inner: &str) -> Option<(String, String)> {
-        let mut depth = 0;
-        let mut comma_pos = None;
-
-        for (i, ch) in inner.char_indices() {
-            match ch {
-                '<' => depth += 1,
-                '>' => depth -= 1,
-                ',' if depth == 0 => {
-                    comma_pos = Some(i);
-                    break;
-                }
-                _ => {}
-            }
-        }
-
-        if let Some(pos) = comma_pos {
-            let key_type = inner[..pos].trim().to_string();
-            let value_type = inner[pos + 1..].trim().to_string();
-            Some((key_type, value_type))
-        } else {
-            None
-        }
+        let pos = find_top_level_comma(inner)?;
+        let key_type = inner[..pos].trim().to_string();
+        let value_type = inner[pos + 1..].trim().to_string();
+        Some((key_type, value_type))
     }
 
     /// Get the type mappings
